@@ -97,7 +97,10 @@ def gen_frame(rng, arch=None, tier="quick"):
         dirty[2] = 0 if rng.random() < 0.8 else dirty[2]
     lsize = rng.choice(SIZES) if rng.random() < 0.7 else rng.randrange(0, 70000)
     csize = rng.choice(SIZES[:28]) if rng.random() < 0.6 else rng.randrange(0, 5000)
-    if rng.random() < 0.35: lsize = 0
+    if rng.random() < 0.012:
+        # out of the proven range (call + local > 2^31 - 2^16): uint32 wrap-around / imm32 limits
+        lsize = rng.choice([0x7FFF0001, 0x7FFFF000, 0x80000000, 0x80000010, 0xC0000000, 0xFFFFFFC0, 0xFFFFFFFF])
+    if rng.random() < 0.35 and lsize < 0x7FFF0000: lsize = 0
     if rng.random() < 0.45: csize = 0
     lalign = rng.choice(ALIGNS)
     calign = rng.choice(ALIGNS)
